@@ -13,7 +13,7 @@ ID = "C16"
 LEVEL_TEXT = ("prep_afqmc and the set-up routine are executed on generated molecules / mean-field objects in a scratch directory; what they wrote "
               "and built is compared with pyscf's own numbers (mean-field energy, FCI / CASCI energy of the molecule, CCSD / UCCSD total energy) "
               "including the linear convergence in the Cholesky threshold. Held = on all generated molecules / options.")
-LEVEL_NOTE = "trusted: pyscf (SCF, FCI, CASCI, CCSD energies), h5py; tolerance 30 x chol_cut (+ 2e-5 for the float32 CI kinds)"
+LEVEL_NOTE = "trusted: pyscf (SCF, FCI, CASCI, CCSD energies), h5py; tolerance 30 x chol_cut (+ 5e-6 for the CI kinds)"
 TECHNIQUE = "runtime monitoring: end-to-end differential oracle against pyscf on files written and objects built by the real interface"
 RULE = ("cases = molecule (H2, H4 chain / ring, LiH, OH radical, jittered geometries) x basis (sto-3g, 6-31g) x mean field (RHF, ROHF, UHF) x frozen "
         "core x density fitting x custom orthonormal basis_coeff x Cholesky threshold x trial / walker_type option; lattice models through the "
@@ -51,6 +51,9 @@ def gen_cases(tier, seed):
     add(mol="h4", basis="sto-3g", mf="rhf", cc=True, trial="cisd", wt="rhf")
     add(mol="lih", basis="sto-3g", mf="rhf", cc=True, frozen=1, trial="cisd", wt="rhf")
     add(mol="oh", basis="sto-3g", mf="uhf", cc=True, trial="ucisd", wt="uhf")
+    add(mol="oh", basis="sto-3g", mf="uhf", cc=True, trial="ucisd", wt="uhf", stretch=1.85, chol_cut=1e-8)
+    add(mol="h4", basis="sto-3g", mf="uhf", cc=True, trial="ucisd", wt="uhf", stretch=1.8, chol_cut=1e-8)
+    add(mol="h4", basis="sto-3g", mf="rhf", cc=True, trial="cisd", wt="rhf", stretch=1.5, chol_cut=1e-8)
     add(mol="hubbard", lattice="chain4", u=4.0, mf="rhf", nelec=[2, 2], trial="rhf", wt="uhf", chol_cut=1e-8, fci=True)
     add(mol="hubbard", lattice="grid2x2", u=2.0, mf="uhf", nelec=[2, 1], trial="uhf", wt="uhf", chol_cut=1e-8, fci=True)
     add(mol="h4", basis="sto-3g", mf="rhf", trial="rhf", wt="rhf", ladder=True)
@@ -70,7 +73,10 @@ def gen_cases(tier, seed):
             if trial == "cisd":
                 wt = "rhf"   # the hand-coded restricted CISD trial defines restricted-walker measurements only
             add(mol=mol, basis=basis, mf=mf, frozen=frozen, cc=cc, trial=trial, wt=wt, custom_basis=bool(rng.random() < 0.4 and not cc),
-                df=bool(rng.random() < 0.15 and not cc and not frozen and mol in ("h2", "h4", "h4ring")),   # auxiliary bases for Li / O are not in the offline pyscf data chol_cut=float(rng.choice([1e-5, 1e-6, 1e-7])),
+                stretch=(float(rng.uniform(1.3, 2.0)) if (mol in ("oh", "h4", "lih") and basis == "sto-3g" and rng.random() < 0.35) else None),
+                # (density fitting only for H-only molecules: auxiliary bases for Li / O are not in the offline pyscf data)
+                df=bool(rng.random() < 0.15 and not cc and not frozen and mol in ("h2", "h4", "h4ring")),
+                chol_cut=float(rng.choice([1e-5, 1e-6, 1e-7, 1e-8])),
                 fci=bool(basis == "sto-3g" or mol == "h2"))
         for rep in range(30):
             add(mol="hubbard", lattice=str(rng.choice(["chain4", "grid2x2", "chain3"])), u=float(rng.choice([1.0, 4.0, 8.0])), mf=str(rng.choice(["rhf", "uhf"])),
@@ -80,6 +86,18 @@ def gen_cases(tier, seed):
 
 def _molecule(case, rng):
     from checks.c17 import _mol
+
+    if case.get("stretch"):   # stretched bonds: sizeable T1 amplitudes / broken-symmetry UHF references
+        from pyscf import gto
+
+        f = float(case["stretch"])
+        j = lambda: float(rng.normal() * 0.05)
+        if case["mol"] == "oh":
+            return gto.M(atom="O 0 0 0; H 0 0 %f" % (0.97 * f + j()), basis="sto-3g", spin=1, verbose=0)
+        if case["mol"] == "h4":
+            return gto.M(atom="; ".join("H 0 0 %f" % (i * 1.0 * f + j()) for i in range(4)), basis=case.get("basis", "sto-3g"), verbose=0)
+        if case["mol"] == "lih":
+            return gto.M(atom="Li 0 0 0; H 0 0 %f" % (1.6 * f + j()), basis="sto-3g", verbose=0)
 
     return _mol(case["mol"] + ("-631g" if case.get("basis") == "6-31g" and case["mol"] in ("h2", "h4") else ""), rng) if case.get("basis") != "6-31g" or case["mol"] in ("h2", "h4") else _mol_basis(case, rng)
 
@@ -129,8 +147,75 @@ def _build_mf(case, rng):
     if case.get("df"):
         mf = mf.density_fit()
     mf.conv_tol = 1e-11
-    mf.kernel()
+    if case.get("stretch") and case["mf"] == "uhf" and mol.spin == 0:
+        dm = mf.get_init_guess()
+        nao = dm.shape[-1]
+        dm[0][: nao // 2] *= 1.3   # spin-symmetry breaking start
+        dm[1][nao // 2:] *= 1.3
+        dm = (dm + dm.transpose(0, 2, 1)) / 2
+        mf.kernel(dm)
+    else:
+        mf.kernel()
     return mol, mf, None
+
+
+def _exact_ground_energy(h1, eri, nmo, nelec, ecore):
+    """lowest eigenvalue in the (n_up, n_dn) sector: dense diagonalisation of pyscf's determinant-space Hamiltonian when the sector is small
+    (a Davidson iteration started in an arbitrary orbital basis can stop on an excited state at stretched geometries), else Davidson with
+    several roots"""
+    from math import comb
+
+    from pyscf import fci
+
+    dim = comb(nmo, nelec[0]) * comb(nmo, nelec[1])
+    if dim <= 3000:
+        _, hmat = fci.direct_spin1.pspace(h1, eri, nmo, nelec, np=dim)
+        return float(np.linalg.eigvalsh(hmat)[0] + ecore)
+    solver = fci.direct_spin1.FCI()
+    solver.conv_tol = 1e-11
+    solver.nroots = 4
+    es, _ = solver.kernel(h1, eri, nmo, nelec, ecore=ecore)
+    return float(np.min(es))
+
+
+def _amplitude_residual(mycc, amp):
+    """CISD coefficients of exp(T1 + T2)|0> up to doubles, written out element by element: c1 = t1,
+    same spin c(ij->ab) = t2(ijab) + t1(ia) t1(jb) - t1(ib) t1(ja), opposite spin c(iJ->aB) = t2(iJaB) + t1(ia) t1(JB);
+    the files index doubles as [i, a, j, b]"""
+    worst = 0.0
+    if isinstance(mycc.t1, (tuple, list)):
+        t1a, t1b = np.asarray(mycc.t1[0]), np.asarray(mycc.t1[1])
+        t2aa, t2ab, t2bb = (np.asarray(x) for x in mycc.t2)
+        worst = max(worst, float(np.max(np.abs(amp["ci1a"] - t1a), initial=0.0)), float(np.max(np.abs(amp["ci1b"] - t1b), initial=0.0)))
+        for name, t1, t2 in (("ci2aa", t1a, t2aa), ("ci2bb", t1b, t2bb)):
+            no, nv = t1.shape
+            ref = np.zeros((no, nv, no, nv))
+            for i in range(no):
+                for j in range(no):
+                    for a in range(nv):
+                        for b in range(nv):
+                            ref[i, a, j, b] = t2[i, j, a, b] + t1[i, a] * t1[j, b] - t1[i, b] * t1[j, a]
+            worst = max(worst, float(np.max(np.abs(amp[name] - ref), initial=0.0)))
+        noa, nva = t1a.shape
+        nob, nvb = t1b.shape
+        ref = np.zeros((noa, nva, nob, nvb))
+        for i in range(noa):
+            for j in range(nob):
+                for a in range(nva):
+                    for b in range(nvb):
+                        ref[i, a, j, b] = t2ab[i, j, a, b] + t1a[i, a] * t1b[j, b]
+        worst = max(worst, float(np.max(np.abs(amp["ci2ab"] - ref), initial=0.0)))
+    else:
+        t1, t2 = np.asarray(mycc.t1), np.asarray(mycc.t2)
+        no, nv = t1.shape
+        ref = np.zeros((no, nv, no, nv))
+        for i in range(no):
+            for j in range(no):
+                for a in range(nv):
+                    for b in range(nv):
+                        ref[i, a, j, b] = t2[i, j, a, b] + t1[i, a] * t1[j, b]
+        worst = max(float(np.max(np.abs(amp["ci1"] - t1), initial=0.0)), float(np.max(np.abs(amp["ci2"] - ref), initial=0.0)))
+    return worst
 
 
 def run_case(case):
@@ -182,10 +267,16 @@ def run_case(case):
         if frozen:
             mycc.frozen = frozen
         mycc.verbose = 0
+        mycc.max_cycle = 300
         mycc.kernel()
+        # the statement is about the amplitudes handed over: E_CC[t1, t2] = E_HF + <0|H (T1 + T2 + T1^2/2)|0> is defined (and evaluated by
+        # pyscf's own energy functional) for any amplitudes, so a CC iteration that stopped short of its threshold is still a valid case
+        e_cc_ref = float(mf.e_tot + mycc.energy(mycc.t1, mycc.t2))
         if not mycc.converged:
+            cnt["cc_not_converged_energy_functional_used"] = 1
+        if not np.isfinite(e_cc_ref) or abs(e_cc_ref - mf.e_tot) > 5.0:
             cnt["skipped_unconverged"] = 1
-            return {"events": [ev("cc/not-converged", None, key="C16/skip-cc")], "nontrivial": False, "counters": cnt}
+            return {"events": [ev("cc/diverged", None, key="C16/skip-cc")], "nontrivial": False, "counters": cnt}
         obj = mycc
     basis_coeff = None
     if case.get("custom_basis"):
@@ -219,6 +310,11 @@ def run_case(case):
 
                 options = {"trial": case["trial"], "walker_type": case["wt"], "n_walkers": 4, "seed": 7}
                 ham_data, ham, prop, trial, wave_data, sampler, observable, options, MPI = mpi_jax._prep_afqmc(options)
+            if mycc is not None:
+                amp = dict(np.load("amplitudes.npz"))
+                events.append(judge("trial/written-ci-amplitudes-are-t1-t2-cluster-expansion", _amplitude_residual(mycc, amp), 1e-12,
+                                    key + "/ci-amplitudes/" + case["trial"], blocks=sorted(amp.keys())))
+                cnt["amplitude_checks"] = cnt.get("amplitude_checks", 0) + 1
             with h5py.File("FCIDUMP_chol", "r") as fh:
                 nelec_w, nmo, ms, nchol = [int(x) for x in fh["header"]]
                 h0 = float(np.array(fh["energy_core"]))
@@ -234,11 +330,12 @@ def run_case(case):
         finally:
             os.chdir(cwd0)
             shutil.rmtree(tmp, ignore_errors=True)
-        tol = 30 * chol_cut + (3e-5 if case["trial"] in ("cisd", "ucisd") else 1e-9)
+        tol = 30 * chol_cut + (5e-6 if case["trial"] in ("cisd", "ucisd") else 1e-9)
         if mycc is not None:
-            events.append(judge("trial/cisd-mixed-energy-equals-ccsd", abs(e_est - mycc.e_tot), tol, key + "/ccsd-energy/" + case["trial"], lib=e_est, pyscf=float(mycc.e_tot)))
+            events.append(judge("trial/cisd-mixed-energy-equals-ccsd", abs(e_est - e_cc_ref), tol, key + "/ccsd-energy/" + case["trial"], lib=e_est, pyscf=e_cc_ref,
+                                converged=bool(mycc.converged), t1_max=float(max(np.max(np.abs(np.asarray(x)), initial=0.0) for x in (mycc.t1 if isinstance(mycc.t1, (tuple, list)) else [mycc.t1])))))
             cnt["cc_checks"] += 1
-            sample.update({"e_estimate": e_est, "e_ccsd": float(mycc.e_tot)})
+            sample.update({"e_estimate": e_est, "e_ccsd": e_cc_ref})
         else:
             events.append(judge("trial/energy-equals-mean-field", abs(e_est - mf.e_tot), tol, key + "/mf-energy/%s-%s" % (case["trial"], case["wt"]),
                                 lib=e_est, pyscf=float(mf.e_tot), chol_cut=chol_cut))
@@ -250,9 +347,7 @@ def run_case(case):
             na_w = (nelec_w + abs(ms)) // 2
             nb_w = (nelec_w - abs(ms)) // 2
             eri = np.einsum("gpq,grs->pqrs", chol, chol)
-            solver = fci.direct_spin1.FCI()
-            solver.conv_tol = 1e-11
-            e_w, _ = solver.kernel(h1, eri, nmo, (na_w, nb_w), ecore=h0)
+            e_w = _exact_ground_energy(h1, eri, nmo, (na_w, nb_w), h0)
             if integrals is not None:
                 n = integrals["h1"].shape[0]
                 from pyscf import ao2mo
